@@ -71,6 +71,69 @@ pub fn run(out: &str, frames: &[Vec<u8>]) -> usize {
         w.write(&json!({"ev": "val", "k": k, "f": "acodec_fromstr", "s": s.to_lowercase(), "ok": r.is_ok(), "shown": shown, "roundtrip": back.unwrap_or(false)}));
         k += 1;
     }
+    // validate_muxing_config: the composition of the four validators over presence combinations
+    let good_v = frames.iter().find(|f| f.len() > 8 && f.starts_with(&[0, 0, 0, 1, 0x67])).cloned().unwrap_or_else(|| vec![0, 0, 0, 1, 0x67, 0x42, 0, 0x1e, 0, 0, 0, 1, 0x68, 0xce, 0, 0, 0, 1, 0x65, 0x88]);
+    let adts_ok: Vec<u8> = vec![0xff, 0xf1, 0x4c, 0x80, 0x01, 0x3f, 0xfc, 1, 2];
+    let vcodecs: [Option<VideoCodec>; 2] = [None, Some(VideoCodec::H264)];
+    let ws: [Option<u32>; 3] = [None, Some(640), Some(100)];
+    let hs: [Option<u32>; 2] = [None, Some(480)];
+    let fpss: [Option<f64>; 2] = [None, Some(30.0)];
+    let vframes: [Option<(Vec<u8>, bool)>; 3] = [None, Some((good_v.clone(), true)), Some((vec![0xde, 0xad], true))];
+    let acodecs: [(&str, Option<AudioCodec>); 4] = [("absent", None), ("none", Some(AudioCodec::None)), ("aac", Some(AudioCodec::Aac(AacProfile::Lc))), ("opus", Some(AudioCodec::Opus))];
+    let rates: [Option<u32>; 3] = [None, Some(48000), Some(7)];
+    let chs: [Option<u8>; 3] = [None, Some(2), Some(0)];
+    let aframes: [Option<Vec<u8>>; 3] = [None, Some(adts_ok.clone()), Some(vec![1, 2, 3])];
+    for vc in &vcodecs {
+        for wd in &ws {
+            for ht in &hs {
+                for fps in &fpss {
+                    for vf in &vframes {
+                        for (an, ac) in &acodecs {
+                            for rate in &rates {
+                                for ch in &chs {
+                                    for af in &aframes {
+                                        let vcfg = val::VideoValidationConfig { codec: *vc, width: *wd, height: *ht, framerate: *fps, sample_frame: vf.clone() };
+                                        let acfg = val::AudioValidationConfig { codec: *ac, sample_rate: *rate, channels: *ch, sample_frame: af.clone() };
+                                        let r = catch(|| val::validate_muxing_config(vcfg, acfg));
+                                        // the parts, from the individual validators (judged on their own above)
+                                        let v_ok = match (vc, wd, ht, fps) {
+                                            (Some(c), Some(x), Some(y), Some(f)) => catch(|| val::validate_video_config(*c, *x, *y, *f)).map(|r| r.is_valid).unwrap_or(false),
+                                            _ => true,
+                                        };
+                                        let vf_ok = match (vc, vf) {
+                                            (Some(c), Some((d, key))) => catch(|| val::validate_video_frame(*c, d, *key)).map(|r| r.is_valid).unwrap_or(false),
+                                            _ => true,
+                                        };
+                                        let a_ok = match (ac, rate, ch) {
+                                            (Some(c), Some(r), Some(n)) => catch(|| val::validate_audio_config(*c, *r, *n)).map(|r| r.is_valid).unwrap_or(false),
+                                            _ => true,
+                                        };
+                                        let af_ok = match (ac, af) {
+                                            (Some(c), Some(d)) => catch(|| val::validate_audio_frame(*c, d)).map(|r| r.is_valid).unwrap_or(false),
+                                            _ => true,
+                                        };
+                                        w.write(&json!({"ev": "val", "k": k, "f": "muxing_config",
+                                            "vc_some": vc.is_some(), "w_some": wd.is_some(), "h_some": ht.is_some(), "fps_some": fps.is_some(), "vf_given": vf.is_some(),
+                                            "ac": an, "rate_some": rate.is_some(), "ch_some": ch.is_some(), "af_given": af.is_some(),
+                                            "v_ok": v_ok, "vf_ok": vf_ok, "a_ok": a_ok, "af_ok": af_ok,
+                                            "valid": r.as_ref().map(|x| x.is_valid).unwrap_or(false), "nerr": r.as_ref().map(|x| x.errors.len()).unwrap_or(0),
+                                            "panic": r.is_err()}));
+                                        k += 1;
+                                    }
+                                }
+                            }
+                        }
+                    }
+                }
+            }
+        }
+    }
+    // documented defaults
+    {
+        let fc = muxide::fragmented::FragmentConfig::default();
+        w.write(&json!({"ev": "val", "k": k, "f": "defaults", "frag_timescale": fc.timescale, "frag_duration_ms": fc.fragment_duration_ms,
+                        "frag_w": fc.width, "frag_h": fc.height, "opus_rate": muxide::codec::opus::OPUS_SAMPLE_RATE}));
+    }
     let _ = Value::Null;
     w.finish()
 }
